@@ -48,7 +48,8 @@ RULE = ("score cases: random scores of 1-10 events (single notes, chords of 2-4 
         "foreign cases: random single- and multi-track files at 24..15360 PPQN with 1-12 notes and random non-note "
         "messages, arbitrary deltas, velocity-0 note-ons as note-offs, occasional same-pitch overlaps, zero-length "
         "notes and unclosed notes; non-trivial = a non-note message with a positive delta lies before a note-on or "
-        "between a note-on and its note-off. Distinctness by the canonical input line.")
+        "between a note-on and its note-off. Distinctness by the canonical input line."
+        " Also (implementation-only oracle): takes ended by timeline.stop() / all_notes_off() in the middle of notes and rests, written and read back with mido (onsets, sounded lengths, no hanging note, file length).")
 ASSUMPTIONS = [
     "mido's file codec is trusted (it is the independent parser of the written file and the writer of foreign files)",
     "durations and note lengths are whole file ticks and the timeline PPQN divides or is twice 480, so no float rounding can move a message by a tick",
